@@ -3,6 +3,7 @@
 package props
 
 import (
+	"slices"
 	"encoding/json"
 	"fmt"
 	"sort"
@@ -214,6 +215,35 @@ func runC20(r *vk.Run) {
 					}
 				}
 				c.Count("collision_selections_repeated", 1)
+				// whichever of the colliding keys names the label, the name still carries ONE of their values:
+				// a container with colliding keys is selected by {name="v"} for at least one of those values
+				for _, cs2 := range inv {
+					var vals []string
+					for lk, lv := range cs2.Labels {
+						if _, s2 := modelSanitise(lk); s2 == sk {
+							vals = append(vals, lv)
+						}
+					}
+					if len(vals) < 2 {
+						continue
+					}
+					sort.Strings(vals)
+					hit := false
+					for _, cand := range vals {
+						fd := newFakeDocker(inv)
+						_, err := evalQuery(dockerQuerier(fd), fmt.Sprintf("{%s=%s}", sk, quoteLogQL(cand)), EvalP{Start: 1600000000e9, End: 1800000000e9, Step: time.Second, Limit: -1})
+						c.Eval(1)
+						if err == nil && slices.Contains(fd.OpenedIDs(), cs2.ID) {
+							hit = true
+							break
+						}
+					}
+					if !hit {
+						c.Fail("", fmt.Sprintf("container %s carries keys sanitising to %s with values %q, but {%s=\"v\"} selects it for none of them", cs2.ID, sk, vals, sk), map[string]any{"inventory": inv, "name": sk, "values": vals})
+						return
+					}
+					c.Count("collision_values_addressable", 1)
+				}
 				return
 			}
 			if builtinClash {
